@@ -69,6 +69,8 @@ def configs(tier):
     for n in ((1, 2) if tier == 'quick' else (1, 2, 3)):
         for ri in range(len(requests_for(tier))):
             out.append(dict(n=n, req=ri, split=False, tkey='it'))
+    if tier == 'quick':
+        out.append(dict(n=3, req=1, split=False, tkey='it'))      # all 6 orderings of three steps, no estimator forks
     # splitting the requests over two successive calls gives the same table
     for n in (2,) if tier == 'quick' else (2, 3):
         out.append(dict(n=n, req=0, split=True, tkey='it'))
